@@ -155,6 +155,23 @@ fn table_for(s: &str) -> (String, String) {
     (sj, format!("[{}]", dec.join("; ")))
 }
 
+/// every place where a file format stores a string outside instruction arguments
+#[derive(Clone, Copy, Debug, PartialEq)]
+enum Slot { AnmPath, AnmPath2, StdStage, StdBgmName(usize), StdBgmPath(usize), StdAnmPath, MissionLine(usize, u8, u8), EclAnim, EclEcli }
+impl Slot {
+    /// (is block-padded, block size or buffer size)
+    fn shape(self) -> (bool, usize) {
+        match self { Slot::AnmPath | Slot::AnmPath2 => (true, 16), Slot::EclAnim | Slot::EclEcli => (true, 1), Slot::MissionLine(..) => (false, 64), _ => (false, 128) }
+    }
+    fn name(self) -> String {
+        match self {
+            Slot::AnmPath => "anm-path".into(), Slot::AnmPath2 => "anm-path_2".into(), Slot::StdStage => "std-stage_name".into(),
+            Slot::StdBgmName(k) => format!("std-bgm{}-name", k), Slot::StdBgmPath(k) => format!("std-bgm{}-path", k), Slot::StdAnmPath => "std12-anm_path".into(),
+            Slot::MissionLine(k, st, sc) => format!("mission-line{}-stage{}-scene{}", k, st, sc), Slot::EclAnim => "ecl10-anim".into(), Slot::EclEcli => "ecl10-ecli".into(),
+        }
+    }
+}
+
 fn meta(rng: &mut Rng, n: usize) {
     let mut h = Hist(BTreeMap::new());
     let good = load_repertoire();
@@ -163,31 +180,38 @@ fn meta(rng: &mut Rng, n: usize) {
     let mut cursor = 0usize;
     for i in 0..n {
         let mut r = rng.fork();
-        let is_anm = i % 2 == 0;
-        let unit = if is_anm { 16 } else { 128 };
-        let target = match r.below(9) { 0 => 1, 1 => unit - 1, 2 => unit, 3 => unit + 1, 4 => 2 * unit - 1, 5 => 2 * unit, 6 => 3 * unit, _ => 1 + r.below(2 * unit as u64 + 4) as usize };
+        let slot = match i % 9 {
+            0 => Slot::AnmPath, 1 => Slot::AnmPath2, 2 => Slot::StdStage, 3 => Slot::StdBgmName(r.below(4) as usize), 4 => Slot::StdBgmPath(r.below(4) as usize),
+            5 => Slot::StdAnmPath, 6 => Slot::MissionLine(r.below(3) as usize, r.below(256) as u8, r.below(256) as u8), 7 => Slot::EclAnim, _ => Slot::EclEcli,
+        };
+        let (blockwise, unit) = slot.shape();
+        let u = if unit == 1 { 16 } else { unit };     // for block size 1 vary lengths around 16 anyway
+        let target = if blockwise { match r.below(10) { 0 => 1, 1 => u - 1, 2 => u, 3 => u + 1, 4 => 2 * u - 1, 5 => 2 * u, 6 => 2 * u + 1, 7 => 3 * u, _ => 1 + r.below(2 * u as u64 + 4) as usize } }
+                     // fixed buffers: the longest string that fits has u-1 bytes (room for the NUL)
+                     else { match r.below(10) { 0 => 1, 1 => u - 2, 2 | 3 => u - 1, 4 => u, 5 => u + 1, 6 => u / 2, _ => 1 + r.below(u as u64) as usize } };
         let pool: &[char] = if r.chance(1, 3) { &ascii } else { &good };
         let sweep = !std::ptr::eq(pool.as_ptr(), ascii.as_ptr());
         let mut s = string_of_bytes(&mut r, pool, target, &mut cursor, sweep);
         if s.is_empty() { s.push('a'); }
         if r.chance(1, 40) { s.push('⏄'); h.bump("unencodable"); }
-        if r.chance(1, 50) { let mut cs: Vec<char> = s.chars().collect(); cs.insert(cs.len() / 2, '\0'); s = cs.into_iter().collect(); h.bump("with_nul"); }
+        // (not in the string lists of stack ECL: a NUL there splits one list element into two and shifts the rest of the header)
+        if r.chance(1, 50) && !matches!(slot, Slot::EclAnim | Slot::EclEcli) { let mut cs: Vec<char> = s.chars().collect(); cs.insert(cs.len() / 2, '\0'); s = cs.into_iter().collect(); h.bump("with_nul"); }
         let (sj, sjd) = table_for(&s);
         let good_string = s.chars().all(|c| c != '\0' && good.contains(&c));
-        // ANM entries have two names: the image path and (optionally) a second path written right behind it
-        let second = is_anm && r.chance(1, 2);
-        let res: Outcome<String> = if is_anm { h.bump(if second { "anm_path_2" } else { "anm_path" }); anm_path_roundtrip(&s, second, &dir) } else { h.bump("std_name"); std_name_roundtrip(&s, &dir) };
+        h.bump(&format!("slot_{}", slot.name().split(|c: char| c.is_ascii_digit() && false).next().unwrap_or("").split("-stage").next().unwrap_or("")));
+        let res: Outcome<String> = slot_roundtrip(slot, &s, &dir);
         let obs = match &res { Outcome::Ok(t) => format!("(IOk {})", str_term(t)), Outcome::Err(_) => "IErr".into(), Outcome::Panic(_) => "IPanic".into() };
-        let input = format!("{} {}", if second { "anm-path_2" } else if is_anm { "anm-path" } else { "std-name" }, str_src(&s));
-        println!("{}\t{} {} {} {} {} {}\t{}", if is_anm { "PATH" } else { "NAME" }, if is_anm { "KPath" } else { "KName" }, unit, str_term(&s), sj, sjd, obs, one_line(&input));
+        let input = format!("{} {}", slot.name(), str_src(&s));
+        println!("{}\t{} {} {} {} {} {}\t{}", if blockwise { "PATH" } else { "NAME" }, if blockwise { "KPath" } else { "KName" }, unit, str_term(&s), sj, sjd, obs, one_line(&input));
+        let enc_len = sjis_encode(&s).map(|b| b.len());
         match &res {
             Outcome::Panic(p) => println!("ORACLE-FAIL\tpanic: while writing or reading a file with this metadata string\t{}\t{}", one_line(p), one_line(&input)),
             Outcome::Ok(t) => {
                 if good_string && t != &s { println!("ORACLE-FAIL\tmeta-roundtrip: a metadata string came back different\tread {:?}\t{}", t, one_line(&input)); }
                 // a name that does not leave room for its NUL terminator in the fixed buffer must be rejected
-                if !is_anm && sjis_encode(&s).map(|b| b.len() >= unit).unwrap_or(false) { println!("ORACLE-FAIL\tmeta-toolong: a name that does not fit its {}-byte buffer was written\tread {:?}\t{}", unit, t, one_line(&input)); }
+                if !blockwise && enc_len.map(|l| l >= unit).unwrap_or(false) { println!("ORACLE-FAIL\tmeta-toolong: a name that does not fit its {}-byte buffer was written\tread {:?}\t{}", unit, t, one_line(&input)); }
             },
-            Outcome::Err(d) => if good_string && sjis_encode(&s).map(|b| b.len() < unit || is_anm).unwrap_or(false) {
+            Outcome::Err(d) => if good_string && enc_len.map(|l| blockwise || l < unit).unwrap_or(false) {
                 println!("ORACLE-FAIL\tmeta-roundtrip: a representable metadata string that fits was rejected\t{}\t{}", one_line(&d.chars().take(200).collect::<String>()), one_line(&input));
             },
         }
@@ -195,46 +219,76 @@ fn meta(rng: &mut Rng, n: usize) {
     println!("STATS\thist={:?}", h.0);
 }
 
-fn anm_path_roundtrip(s: &str, second: bool, dir: &std::path::Path) -> Outcome<String> {
-    let names = if second { format!("path: \"subdir/image.png\", path_2: {}", str_src(s)) } else { format!("path: {}", str_src(s)) };
-    let text = format!("entry {{ {}, has_data: false, img_width: 16, img_height: 16, img_format: 1, sprites: {{ sprite0: {{id: 0, x: 1.0, y: 2.0, w: 3.0, h: 4.0}} }} }}\nscript script0 {{\n}}\n", names);
-    // only the TH06-era entry header has a slot for the second path
-    let game = if second { Game::Th06 } else { Game::Th12 };
-    let file = dir.join("meta.anm");
+/// compile a file whose slot holds [s], write it to disk, read it back, return what the slot holds now
+fn slot_roundtrip(slot: Slot, s: &str, dir: &std::path::Path) -> Outcome<String> {
+    use truth::LanguageKey;
+    let lit = str_src(s);
+    let (game, text, fname): (Game, String, &str) = match slot {
+        Slot::AnmPath => (Game::Th12, format!("entry {{ path: {}, has_data: false, img_width: 16, img_height: 16, img_format: 1, sprites: {{ sprite0: {{id: 0, x: 1.0, y: 2.0, w: 3.0, h: 4.0}} }} }}\nscript script0 {{\n}}\n", lit), "meta.anm"),
+        // only the TH06-era entry header has a slot for the second path
+        Slot::AnmPath2 => (Game::Th06, format!("entry {{ path: \"subdir/image.png\", path_2: {}, has_data: false, img_width: 16, img_height: 16, img_format: 1, sprites: {{ sprite0: {{id: 0, x: 1.0, y: 2.0, w: 3.0, h: 4.0}} }} }}\nscript script0 {{\n}}\n", lit), "meta.anm"),
+        Slot::StdStage | Slot::StdBgmName(_) | Slot::StdBgmPath(_) => {
+            let mut bgm = String::new();
+            for k in 0..4 {
+                let nm = if slot == Slot::StdBgmName(k) { lit.clone() } else { format!("\"name{}\"", k) };
+                let pt = if slot == Slot::StdBgmPath(k) { lit.clone() } else { format!("\"bgm/t{}.mid\"", k) };
+                bgm.push_str(&format!("        {{path: {}, name: {}}},\n", pt, nm));
+            }
+            let stage = if slot == Slot::StdStage { lit.clone() } else { "\"stage\"".to_string() };
+            (Game::Th08, format!("meta {{\n    unknown: 0,\n    stage_name: {},\n    bgm: [\n{}    ],\n    objects: {{}},\n    instances: [],\n}}\nscript main {{\n}}\n", stage, bgm), "meta.std")
+        },
+        Slot::StdAnmPath => (Game::Th12, format!("meta {{\n    unknown: 0,\n    anm_path: {},\n    objects: {{}},\n    instances: [],\n}}\nscript main {{\n}}\n", lit), "meta.std"),
+        Slot::MissionLine(k, st, sc) => {
+            let lines: Vec<String> = (0..3).map(|j| if j == k { lit.clone() } else { format!("\"line {}\"", j) }).collect();
+            (Game::Th095, format!("entry {{ stage: {}, scene: {}, face: 0, point: 1, text: [{}] }}\nentry {{ stage: 1, scene: 1, face: 0, point: 0, text: [\"a\", \"b\", \"c\"] }}\n", st, sc, lines.join(", ")), "meta.msg")
+        },
+        Slot::EclAnim => (Game::Th10, format!("meta {{\n    ecli: [\"default.ecl\"],\n    anim: [\"first.anm\", {}, \"last.anm\"],\n}}\n", lit), "meta.ecl"),
+        Slot::EclEcli => (Game::Th10, format!("meta {{\n    ecli: [{}, \"second.ecl\"],\n    anim: [],\n}}\n", lit), "meta.ecl"),
+    };
+    let file = dir.join(fname);
     let r = catch(|| -> Result<String, String> {
         let mut scope = truth::Builder::new().capture_diagnostics(true).build();
         let mut truth = scope.truth();
         let res = (|| -> Result<String, truth::ErrorReported> {
-            truth.apply_mapfile_str("!anmmap\n", game)?;
             let ast = truth.parse::<ast::ScriptFile>("<input>", text.as_bytes())?.value;
             let mut t = truth.validate_defs()?;
-            let w = t.compile_anm(game, &ast)?;
-            let anm = t.finalize_anm(game, w)?;
-            t.write_anm(game, &file, &anm)?;
-            let back = t.read_anm(game, &file, false)?;
-            Ok(if second { back.entries[0].path_2.as_ref().map(|p| p.value.clone()).unwrap_or_default() } else { back.entries[0].path.value.clone() })
+            Ok(match slot {
+                Slot::AnmPath | Slot::AnmPath2 => {
+                    let w = t.compile_anm(game, &ast)?;
+                    let anm = t.finalize_anm(game, w)?;
+                    t.write_anm(game, &file, &anm)?;
+                    let back = t.read_anm(game, &file, false)?;
+                    if slot == Slot::AnmPath2 { back.entries[0].path_2.as_ref().map(|p| p.value.clone()).unwrap_or_default() } else { back.entries[0].path.value.clone() }
+                },
+                Slot::StdStage | Slot::StdBgmName(_) | Slot::StdBgmPath(_) | Slot::StdAnmPath => {
+                    let std = t.compile_std(game, &ast)?;
+                    t.write_std(game, &file, &std)?;
+                    let back = t.read_std(game, &file)?;
+                    match (&back.extra, slot) {
+                        (truth::std::StdExtra::Th06 { stage_name, .. }, Slot::StdStage) => stage_name.value.clone(),
+                        (truth::std::StdExtra::Th06 { bgm, .. }, Slot::StdBgmName(k)) => bgm[k].name.value.clone(),
+                        (truth::std::StdExtra::Th06 { bgm, .. }, Slot::StdBgmPath(k)) => bgm[k].path.value.clone(),
+                        (truth::std::StdExtra::Th10 { anm_path }, Slot::StdAnmPath) => anm_path.value.clone(),
+                        _ => String::from("<wrong kind of STD file read back>"),
+                    }
+                },
+                Slot::MissionLine(k, _, _) => {
+                    let m = t.compile_mission(game, &ast)?;
+                    t.write_mission(game, &file, &m)?;
+                    match t.read_mission(game, &file)? {
+                        truth::MissionMsgFile::Th095(f) => f.entries[0].text[k].value.clone(),
+                        truth::MissionMsgFile::Th125(f) => f.entries[0].text[k].value.clone(),
+                    }
+                },
+                Slot::EclAnim | Slot::EclEcli => {
+                    let e = t.compile_stack_ecl(game, &ast)?;
+                    t.write_stack_ecl(game, &file, &e)?;
+                    let back = t.read_stack_ecl(game, &file)?;
+                    if slot == Slot::EclAnim { back.anim_list[1].value.clone() } else { back.ecli_list[0].value.clone() }
+                },
+            })
         })();
-        let diag = truth.get_captured_diagnostics().unwrap_or_default();
-        res.map_err(|_| diag)
-    });
-    match r { Ok(Ok(s)) => Outcome::Ok(s), Ok(Err(d)) => Outcome::Err(d), Err(p) => Outcome::Panic(p) }
-}
-
-fn std_name_roundtrip(s: &str, dir: &std::path::Path) -> Outcome<String> {
-    let text = format!("meta {{\n    unknown: 0,\n    stage_name: {},\n    bgm: [\n        {{path: \"bgm/a.mid\", name: \"dm\"}},\n        {{path: \" \", name: \" \"}},\n        {{path: \" \", name: \" \"}},\n        {{path: \" \", name: \" \"}},\n    ],\n    objects: {{}},\n    instances: [],\n}}\nscript main {{\n}}\n", str_src(s));
-    let file = dir.join("meta.std");
-    let r = catch(|| -> Result<String, String> {
-        let mut scope = truth::Builder::new().capture_diagnostics(true).build();
-        let mut truth = scope.truth();
-        let res = (|| -> Result<String, truth::ErrorReported> {
-            truth.apply_mapfile_str("!stdmap\n", Game::Th08)?;
-            let ast = truth.parse::<ast::ScriptFile>("<input>", text.as_bytes())?.value;
-            let mut t = truth.validate_defs()?;
-            let std = t.compile_std(Game::Th08, &ast)?;
-            t.write_std(Game::Th08, &file, &std)?;
-            let back = t.read_std(Game::Th08, &file)?;
-            match &back.extra { truth::std::StdExtra::Th06 { stage_name, .. } => Ok(stage_name.value.clone()), _ => Ok(String::new()) }
-        })();
+        let _ = LanguageKey::Anm;
         let diag = truth.get_captured_diagnostics().unwrap_or_default();
         res.map_err(|_| diag)
     });
